@@ -666,7 +666,20 @@ def gen(repo, outdir, selftest_out=None):
         fenv = per_file.get(rel, (cenv, {}))[0] if rel in per_file else module_consts(t, cenv)[0]
         try:
             fn = find_def(t, qual)
-            e = locate(fn, loc)
+            try:
+                e = locate(fn, loc)
+            except Fail:
+                # opts["absent"]: the test may legitimately not exist in the tree (a check that a pending
+                # `fix:` adds); the leaf then is the given constant -- "the check never fires" -- and
+                # the GenFacts lemma about it fails, so the property's proof stage still reports it.
+                if "absent" not in opts or rty != "bool":
+                    raise
+                nty = "Nat" if opts.get("nat") else "Int"
+                sig = " ".join("(%s : %s)" % (("_" + p[1]), nty if p[2] == "num" else "Bool") for p in params)
+                by_mod.setdefault(mod, []).append(
+                    "/-- `%s` (%s): no test matching %r in the working tree -/\ndef %s %s : Bool :=\n  %s\n"
+                    % (qual, rel, loc[1:-1], lname, sig, opts["absent"]))
+                continue
             tr = Tr(fenv, {p[0]: (p[1], p[2]) for p in params}, nat=opts.get("nat", False), file=rel)
             if rty == "bool":
                 body = tr.boolean(e)
